@@ -23,11 +23,16 @@ type c15Case struct {
 	Answer  string   `json:"answer"` // never | before | at | after   (stop), or "answer" (local-logout)
 	HB      int      `json:"hb"`
 	DelayMs int      `json:"answer_delay_ms,omitempty"` // local-logout: delay before the peer's answer
+	Buf     int      `json:"buf,omitempty"`             // outgoing queue size (default 10)
 }
 
 func c15Run(c c15Case) (string, string) {
 	ct := time.Duration(c.CloseMs) * time.Millisecond
-	w := newWorld(wcfg{Role: c.Role, Buf: 10, HbMin: 1, HbMax: 60, HbInt: c.HB, CloseTimeout: ct})
+	buf := 10
+	if c.Buf > 0 {
+		buf = c.Buf
+	}
+	w := newWorld(wcfg{Role: c.Role, Buf: buf, HbMin: 1, HbMax: 60, HbInt: c.HB, CloseTimeout: ct})
 	w.logonOK(c.HB)
 	if !w.s.IsLogged() {
 		return "setup:not-logged", ""
@@ -40,6 +45,21 @@ func c15Run(c c15Case) (string, string) {
 			w.in(w.msg("D", "11=x"))
 		case "Send":
 			_ = w.s.Send(fixgen.NewMarketDataRequest())
+			vsched.Settle()
+		case "Probe":
+			// the peer is silent until the session probes it (needs a short heartbeat interval): the
+			// session's own TestRequest is outstanding when the ending begins
+			time.Sleep(time.Duration(c.HB)*time.Second + time.Duration(tol(c.HB))*time.Second + 100*time.Millisecond)
+			vsched.Settle()
+			if countType(w.outs, "1") == 0 {
+				return "setup:no-testrequest", outsStr(w.outs)
+			}
+		case "StalledWriter":
+			// the peer stops reading: the outgoing queue is full when the ending begins (and stays so)
+			w.hold = true
+			for i := 0; i < c.Buf+2; i++ {
+				go func() { _ = w.s.Send(fixgen.NewMarketDataRequest()) }()
+			}
 			vsched.Settle()
 		}
 	}
@@ -99,13 +119,20 @@ func c15Run(c c15Case) (string, string) {
 		}
 	case "stop":
 		t0 := vsched.NowOffset()
-		if err := w.s.Stop(); err != nil {
-			return "stop:error", err.Error()
-		}
-		vsched.Settle()
-		outs := w.take()
-		if countType(outs, "5") != 1 {
-			return "stop:no-logout-sent", fmt.Sprintf("outs=[%s]", outsStr(outs))
+		stalled := len(c.Prefix) > 0 && c.Prefix[len(c.Prefix)-1] == "StalledWriter"
+		if stalled {
+			// Stop cannot hand its Logout over while the queue is full; the close timeout still applies
+			go func() { _ = w.s.Stop() }()
+			vsched.Settle()
+		} else {
+			if err := w.s.Stop(); err != nil {
+				return "stop:error", err.Error()
+			}
+			vsched.Settle()
+			outs := w.take()
+			if countType(outs, "5") != 1 {
+				return "stop:no-logout-sent", fmt.Sprintf("outs=[%s]", outsStr(outs))
+			}
 		}
 		var answerAt time.Duration = -1
 		switch c.Answer {
@@ -225,6 +252,24 @@ func runC15(R *vlib.Out) {
 					if !try(c15Case{Role: role, CloseMs: ct, Prefix: p, Ending: "stop", Answer: a, HB: 30}) {
 						return
 					}
+				}
+			}
+		}
+		// the session's own TestRequest is outstanding when the ending begins (heartbeat interval 1 s, endings
+		// that complete before the next timer expiry)
+		for _, p := range [][]string{{"Probe"}, {"Probe", "Send"}} {
+			if !try(c15Case{Role: role, CloseMs: 1000, Prefix: p, Ending: "peer-logout", HB: 1}) ||
+				!try(c15Case{Role: role, CloseMs: 1000, Prefix: p, Ending: "local-logout", Answer: "answer", HB: 1}) ||
+				!try(c15Case{Role: role, CloseMs: 1000, Prefix: p, Ending: "stop", Answer: "before", HB: 1}) ||
+				!try(c15Case{Role: role, CloseMs: 1000, Prefix: p, Ending: "stop", Answer: "never", HB: 1}) {
+				return
+			}
+		}
+		// the peer has stopped reading: the outgoing queue is full when Stop is called; the deadline still holds
+		for _, buf := range []int{1, 2} {
+			for _, ct := range []int{300, 1000} {
+				if !try(c15Case{Role: role, CloseMs: ct, Prefix: []string{"StalledWriter"}, Ending: "stop", Answer: "never", HB: 30, Buf: buf}) {
+					return
 				}
 			}
 		}
